@@ -164,6 +164,10 @@ func vSameIDs(a, b []ipmi.RecordID) bool {
 // requests is at most ceil(T/p)+1, and page starts are 1, 1+p, 1+2p, ...
 func VerifC16_EntityInstances() {
 	t := vLen(0, vParam("maxinstances", 24))
+	if vParam("maxinstances", 24) < 255 && vBool() {
+		// the end of the 8-bit range, where a start index or a count can wrap
+		t = []int{253, 254, 255}[vChoice(3)]
+	}
 	p := 1 + vChoice(8)
 	ids := vIDs(t)
 	b := &refSensorBMC{ids: map[ipmi.EntityID][]ipmi.RecordID{ipmi.EntityIDProcessor: ids}, page: p, startsOK: true, lastStart: map[ipmi.EntityID]int{}}
@@ -273,9 +277,11 @@ func VerifC20_RollingAverageEncode() {
 		// days: whole hours only (the sub-hour remainder is outside this bound)
 		days := uint32(vPick(63))
 		if vParam("allq", 0) == 0 && vBool() {
-			days = 64 // "up to 64 days": the 6-bit field saturates at 63
+			// beyond the 6-bit field: it saturates at 63 days, also where the day count
+			// no longer fits a byte
+			days = []uint32{64, 256, 300}[vChoice(3)]
 		} else if vParam("allq", 0) == 1 && vBool() {
-			days = uint32(64 + vChoice(3))
+			days = []uint32{64, 65, 66, 255, 256, 257, 300, 1000, 49000}[vChoice(9)]
 		}
 		h := uint32(vByte())
 		vAssume(h < 24)
